@@ -3,6 +3,9 @@ use lexical_parse_float::parse::{parse_mantissa_sign, parse_number};
 use lexical_util::format as f;
 use lexical_util::iterator::{AsBytes, Iter};
 
+#[path = "comp_write.rs"]
+mod comp_write;
+
 fn hex128(s: &str) -> u128 {
     u128::from_str_radix(s.trim_start_matches("0x"), 16).unwrap()
 }
@@ -21,6 +24,7 @@ pub fn run_comp(op: &str, a: &[&str]) -> String {
         "rb" => format!("{:x}", f::NumberFormatBuilder::rebuild(hex128(a[0])).build_unchecked()),
         // pn FMT PARTIAL LOSSY EXP DP NAN INF INFINITY HEX
         "pn" => crate::dispatch_pn(crate::parse_fmt(a[0]), &a[1..]).unwrap_or_else(|| "nofmt".to_string()),
+        "td" | "gr" => comp_write::run(op, a),
         // fs TY HEX -> `core::str::FromStr` of Rust itself: `ok <bits|value> -` | `err FromStr -` (C12: STANDARD vs FromStr)
         "fs" => op_fs(a[0], &crate::unhex(a[1])),
         _ => "badop".into(),
